@@ -313,6 +313,16 @@ pub fn s_cltv() -> Vec<WCfg> {
             c.templates[a2].spec.cltv_expiry = e2;
             out.push(c);
         }
+        // the set is funded by a far-expiry HTLC; a lower-expiry HTLC joins before the attempt is initiated
+        {
+            let mut c = mk("late-lower");
+            let inv = c.add_invoice(&InvoiceSpec::fixed(1, 1_000_000));
+            let a = c.add_htlc("a", inv, 1_005_000, 1_005_000);
+            let b = c.add_htlc("b", inv, 1, 1_005_000);
+            c.templates[a].spec.cltv_expiry = h0.saturating_add(p + 500);
+            c.templates[b].spec.cltv_expiry = h0.saturating_add(p + 2);
+            out.push(c);
+        }
         // generous incoming expiries: the policy delta is the binding cap
         for (name, e1, e2) in [("far1", h0.saturating_add(p + 1000), 0u32), ("far2", h0.saturating_add(p + 5000), h0.saturating_add(p + 300))] {
             let mut c = mk(name);
@@ -929,5 +939,26 @@ pub fn s_two_hashes() -> WCfg {
     c.max_crashes = 1;
     c.crash_lose_responses = true;
     c.write_faults = true;
+    c
+}
+
+
+/// S-hash/mixed: a well-formed payment for hash A, and an HTLC of hash B that carries A's invoice and arrives
+/// while A's payment is in flight or already recorded as succeeded.
+pub fn s_hash_mixed(stored_success: bool) -> WCfg {
+    let mut c = WCfg::base(&format!("S-hash/mixed/{}", if stored_success { "stored-success" } else { "in-flight" }));
+    let ia = c.add_invoice(&InvoiceSpec::fixed(1, 1_000_000));
+    c.add_htlc("x", ia, 1_005_000, 1_005_000);
+    let y = c.add_htlc("y", ia, 1_005_000, 1_005_000);
+    let hb = common::hash_of(&common::preimage(2));
+    c.templates[y].spec.payment_hash = AsRef::<[u8]>::as_ref(&hb).to_vec();
+    c.templates[y].class = Class::HashMismatch { invoice: ia };
+    c.preimages.push((common::hash_hex(&common::preimage(2)), hex::encode(common::preimage(2))));
+    if stored_success {
+        c.seed = seed_history(&c, "succeeded", 0);
+    }
+    c.max_parts = 1;
+    c.max_crashes = 1;
+    c.crash_lose_responses = true;
     c
 }
